@@ -587,8 +587,10 @@ def gen_endpoints(repo):
         'deriving DecidableEq, Repr\n\n'
         '/-- `all_access` of `security.is_sanctioned` -/\n'
         'def allAccess : List String := ' + llist([lstr(s) for s in f['all_access']]) + '\n\n'
-        '/-- `security.is_sanctioned(endpoint, cert)`; `clientsConfigured` = truth of `clients()`,\n'
-        '    `certPresent` = `cert is not None` -/\n'
+        '/-- `security.is_sanctioned(endpoint, cert)`; `clientsConfigured` = client certificates are\n'
+        '    configured (what `clients()` must be true for: the harness loads real key directories\n'
+        '    with valid, mixed and all-expired certificates and compares), `certPresent` =\n'
+        '    `cert is not None` -/\n'
         'def isSanctioned (clientsConfigured certPresent : Bool) (endpoint : String) : Bool :=\n'
         + f['ladder'] + '\n\n'
         '/-- what `security.sanctioned` returns when the hook or its lookup raises -/\n'
